@@ -196,6 +196,36 @@ def run(ctx):
 
     # ---------------- R5
     R = 'C15-R5'
+    # the forked child never comes back into the caller's code: the branch taken when fork() returned
+    # 0 ends in exec / _exit on every path and contains no throw or return of its own
+    for f_ in u.functions:
+        if body_of(f_) is None or not strip_targs(u.qualname(f_)).startswith('phosg::'):
+            continue
+        forks = [c for c in walk(body_of(f_)) if c.get('kind') == 'CallExpr' and call_name(c) in ('fork', 'vfork')]
+        for fk in forks:
+            asg = fk.get('_p')
+            while asg is not None and asg.get('kind') in TRANSPARENT | {'ImplicitCastExpr'}:
+                asg = asg.get('_p')
+            holder = None
+            if asg is not None and asg.get('kind') == 'BinaryOperator' and asg.get('opcode') == '=':
+                holder = canon(asg['inner'][0])
+            elif asg is not None and asg.get('kind') == 'VarDecl':
+                holder = asg.get('name')
+            child = None
+            for x in walk(body_of(f_)):
+                if x.get('kind') == 'IfStmt' and x.get('_off', 0) > fk.get('_off', 0):
+                    cond, then, els = if_parts(x)
+                    r_ = relation(cond, True)
+                    if r_ and r_[1] == '==' and {canon(r_[0]), canon(r_[2])} == {holder, '0'}:
+                        child = then
+                    elif r_ is None and holder and nf(cond) == '!%s' % holder:
+                        child = then
+            if child is None:
+                ctx.undecided(R, '%s|fork-child' % f_.get('name'), fk, 'the branch executed by the forked child (`%s == 0`) was not found' % holder)
+                continue
+            esc = [x for x in walk(child) if x.get('kind') in ('CXXThrowExpr', 'ReturnStmt') and enclosing(x, ('LambdaExpr',)) is None]
+            ctx.check(not falls_through(child) and not esc, R, '%s|fork-child-never-returns' % f_.get('name'), esc[0] if esc else child, 'the child branch ends in exec / _exit on every path',
+                      'the forked child can leave its branch (%s): a second copy of the calling program keeps running with the parent\'s state, and the parent later reports that copy\'s exit status' % (src_text(esc[0], 60) if esc else 'it falls through'))
     db = body_of(dtor)
     di = [x for x in walk(db) if x.get('kind') == 'IfStmt']
     # a kill followed by a blocking wait, both executed exactly when a child exists and a non-blocking
